@@ -131,9 +131,17 @@ def compute(events, spec, plan=None, opts=None):
         d = T.layers.setdefault(L, {'started': {}, 'F': [], 'E': [], 'S': 0,
                                     'U': [], 'X': 0})
         d['started'][tid] = len(kinds)
-        for kind in kinds:
+        its = d.setdefault('iters', [])
+        for it, kind in enumerate(kinds):
             c = calibrate_test(m['name'], node['name'],
                                dict(ts, kind=kind) if kind else ts)
+            # the n-th execution of a test belongs to --repeat iteration n
+            while len(its) <= it:
+                its.append({'tests': 0, 'F': 0, 'E': 0, 'S': 0})
+            its[it]['tests'] += 1
+            its[it]['F'] += len(c['F']) + len(c['U'])
+            its[it]['E'] += len(c['E'])
+            its[it]['S'] += len(c['S'])
             d['F'] += c['F']
             d['E'] += c['E']
             d['U'] += c['U']
